@@ -311,6 +311,7 @@ class PathCtx:
         self.pos = 0
         self.solver = explorer.solver
         self.pc = []
+        self.lemmas = []
         self._fresh = itertools.count()
         self.labels = []
 
@@ -321,8 +322,29 @@ class PathCtx:
     def assume(self, cond):
         if z3.is_true(cond):
             return
-        self.solver.add(cond)
+        if z3.is_and(cond) and has_quantifier(cond):
+            for ch in cond.children():      # keep the quantifier-free conjuncts in the feasibility solver
+                self.assume(ch)
+            return
         self.pc.append(cond)
+        if has_quantifier(cond):
+            # quantified facts are kept out of the feasibility / model queries (z3 answers `unknown` for
+            # satisfiable quantified problems); they are added whenever something has to be *proved*
+            self.lemmas.append(cond)
+            return
+        self.solver.add(cond)
+
+    def _prove_unsat(self, *extra):
+        """check() of path condition + lemmas + extra (used for proof-direction queries)."""
+        if not self.lemmas:
+            return self._check(*extra)
+        self.solver.push()
+        try:
+            for l in self.lemmas:
+                self.solver.add(l)
+            return self._check(*extra)
+        finally:
+            self.solver.pop()
 
     def _check(self, *assumptions):
         import time
@@ -390,7 +412,7 @@ class PathCtx:
             return True
         if z3.is_false(c):
             return False
-        return self.memo(lambda: self._check(z3.Not(c)) == z3.unsat)
+        return self.memo(lambda: self._prove_unsat(z3.Not(c)) == z3.unsat)
 
     def value_of(self, term):
         """Concrete python value of an Int term if the path condition determines it uniquely."""
@@ -468,6 +490,15 @@ class PathCtx:
         self.assume(t == z3.IntVal(vals[0]))
         return vals[0]
 
+    def _explain(self, name, g):
+        for i, part in enumerate(_conjuncts(g)):
+            self.solver.push()
+            self.solver.add(z3.Not(part))
+            r = self._check()
+            self.solver.pop()
+            if r != z3.unsat:
+                print("   [split] %s conjunct %d: %s -> %s" % (name.split("/")[-1], i, str(part)[:400].replace("\n", " "), r))
+
     def oblige(self, name, kind, goal, meta=None, detail=""):
         """Proof obligation: path condition implies goal.  Afterwards goal is assumed."""
         import time
@@ -477,6 +508,8 @@ class PathCtx:
             self.ex.record(name, kind, True, dt=0.0)
             return True
         self.solver.push()
+        for l in self.lemmas:
+            self.solver.add(l)
         self.solver.add(z3.Not(g))
         r = self._check()
         fail = None
@@ -488,12 +521,47 @@ class PathCtx:
             fail = Failure(name, kind, "unknown", detail="solver: %s" % self.solver.reason_unknown(),
                            pc=list(self.pc), goal=g, meta=meta)
         self.solver.pop()
+        if fail is not None and _os.environ.get("PYVC_SPLIT"):
+            self._explain(name, g)
         self.ex.record(name, kind, fail is None, fail, dt=time.time() - t0)
-        if fail is not None and fail.status == "violated" and self._check(g) == z3.unsat:
+        if fail is not None and fail.status == "violated" and self._prove_unsat(g) == z3.unsat:
             # the goal is impossible on this path: nothing meaningful follows (the failure is recorded)
             raise PathAbort("path ends at failed obligation %s" % name)
         self.assume(g)
         return fail is None
+
+
+import os as _os
+
+
+def _conjuncts(g, pre=None):
+    if z3.is_and(g):
+        out = []
+        for ch in g.children():
+            out.extend(_conjuncts(ch, pre))
+        return out
+    if z3.is_implies(g):
+        a, b = g.children()
+        return _conjuncts(b, a if pre is None else z3.And(pre, a))
+    if z3.is_or(g) and len(g.children()) == 2 and z3.is_not(g.children()[0]):
+        a, b = g.children()
+        na = a.children()[0]
+        return _conjuncts(b, na if pre is None else z3.And(pre, na))
+    return [g if pre is None else z3.Implies(pre, g)]
+
+
+def has_quantifier(e):
+    seen = set()
+    todo = [e]
+    while todo:
+        t = todo.pop()
+        if t.get_id() in seen:
+            continue
+        seen.add(t.get_id())
+        if z3.is_quantifier(t):
+            return True
+        todo.extend(t.children())
+    return False
 
 
 def _model_text(m):
